@@ -385,14 +385,16 @@ pub(crate) fn draw_optimizer(rng: &mut Rng) -> OptCfg {
         2 => OptCfg::Adam {
             lr: lr(rng, true),
             beta1: { let v = rng.pick(&[0.0f32, 0.5, 0.9, 0.95, 0.999]); or_tiny(rng, v) },
-            beta2: { let v = rng.pick(&[0.0f32, 0.9, 0.99, 0.999, 0.9999]); or_tiny(rng, v) },
+            // (no tiny beta2 / alpha: the step becomes m / |g|, a map with a pole at g = 0 that
+            // is chaotic under decay - every evaluation order has its own trajectory)
+            beta2: rng.pick(&[0.0f32, 0.9, 0.99, 0.999, 0.9999]),
             epsilon: rng.pick(&EPS),
             decay: decay(rng),
         },
         3 => OptCfg::AdamW {
             lr: lr(rng, true),
             beta1: { let v = rng.pick(&[0.0f32, 0.5, 0.9, 0.95]); or_tiny(rng, v) },
-            beta2: { let v = rng.pick(&[0.0f32, 0.9, 0.99, 0.999]); or_tiny(rng, v) },
+            beta2: rng.pick(&[0.0f32, 0.9, 0.99, 0.999]),
             epsilon: rng.pick(&EPS),
             decay: rng.pick(&[0.0f32, 0.01, 0.1, 1e-7]),
         },
@@ -401,11 +403,10 @@ pub(crate) fn draw_optimizer(rng: &mut Rng) -> OptCfg {
             let alpha = rng.pick(&[0.0f32, 0.5, 0.9, 0.99, 0.999]);
             OptCfg::RMSprop {
                 lr: lr(rng, true),
-                // not with the centred variant: its variance v - g_avg^2 = alpha (1 - alpha) g^2
-                // is then below one ulp of g^2, i.e. no single-precision evaluation of the
-                // documented rule can represent it (the step divides by epsilon alone and,
-                // with decay, runs away) - outside "moderate", whatever the implementation
-                alpha: if centered { alpha } else { or_tiny(rng, alpha) },
+                // no tiny alpha: centred, the variance alpha (1 - alpha) g^2 is below one ulp of
+                // g^2 (no single-precision evaluation can represent it); not centred, the step
+                // is g / |g| (see beta2)
+                alpha,
                 epsilon: rng.pick(&EPS),
                 decay: decay(rng),
                 momentum: if rng.chance(0.5) { Some(rng.pick(&[0.5f32, 0.9])) } else { None },
@@ -431,7 +432,7 @@ impl Property for C03 {
     fn assumptions(&self) -> Vec<String> {
         vec![
             "the reference applies the doc-comment equations of each `update` element-wise, with the zero-hyper-parameter substitution exactly as Optimizer::validate performs it (the defaults named in the `create` doc comments differ from those; the property statement does not cover defaults)".into(),
-            "values are compared within 1e-4 (1+|w|); an element whose f32 and f64 reference trajectories drift apart by more than 1e-5 (1+|w|) is ill-conditioned from then on and only checked for finiteness (counted)".into(),
+            "values are compared within (1e-4 + 5e-7 t)(1+|w|) after t updates; an element whose f32 and f64 reference trajectories drift apart by more than (5e-6 + 1e-7 t)(1+|w|), or whose f32 reference moves by more than (1e-6 + 5e-8 t)(1+|w|) when the start value is one ulp off or every gradient two ulps larger (a perturbation of 1e-7 amplified sixteen-fold), or whose single step is locally that sensitive, or - Adam / RMSprop with coupled decay - whose effective gradient g + decay w has cancelled to 1e-4 of its terms, is ill-conditioned from then on and only checked for finiteness (counted)".into(),
             "finiteness is required whenever the f64 shadow trajectory (variance clamped at its exact lower bound 0) stays below 1e30 in magnitude".into(),
             "no parallel runtime is involved in this property; the interleaving of slot streams is drawn by the run's PRNG and stored in the case".into(),
         ]
@@ -664,13 +665,59 @@ impl Property for C03 {
             for i in 0..s.len() {
                 let mut r32 = RefState::<f32> { w: s.init[i], a: 0.0, b: 0.0, c: 0.0 };
                 let mut r64 = RefState::<f64> { w: s.init[i] as f64, a: 0.0, b: 0.0, c: 0.0 };
+                // conditioning probes: the same rule from a start value one ulp away, and with
+                // every gradient one or two ulps larger. A trajectory that amplifies such a
+                // perturbation beyond a tenth of the verdict's tolerance also amplifies the
+                // rounding differences between two equally valid evaluation orders of the
+                // documented rule (e.g. bias corrections folded into per-step scalars).
+                let mut p_w = RefState::<f32> { w: f32::from_bits(s.init[i].to_bits().wrapping_add(1)), a: 0.0, b: 0.0, c: 0.0 };
+                let mut p_g = RefState::<f32> { w: s.init[i], a: 0.0, b: 0.0, c: 0.0 };
                 let mut conditioned = true;
                 let mut moderate = true;
                 for t in 0..traj.len() {
                     let g = s.gradient(t, i);
                     let step = s.stepnr(t);
+                    // Adam / RMSprop divide by the running magnitude of the *effective*
+                    // gradient g + decay w. Where the two terms cancel to within 1e-4 of their
+                    // size (a trajectory sitting on its fixed point w = -g / decay), single
+                    // precision knows that quotient to three digits at best: rounding noise
+                    // over rounding noise. Every evaluation order jitters there on its own.
+                    if conditioned {
+                        let d = match &sub {
+                            OptCfg::Adam { decay: Some(d), .. } | OptCfg::RMSprop { decay: Some(d), .. } => *d as f64,
+                            _ => 0.0,
+                        };
+                        if d != 0.0 {
+                            let (a, b) = (g as f64, d * r64.w);
+                            if (a + b).abs() <= 1e-4 * (a.abs() + b.abs()) {
+                                conditioned = false;
+                                ill += 1;
+                            }
+                        }
+                    }
+                    // local sensitivity of this very step: value and gradient 1e-6 larger
+                    // (ten times what separates two valid evaluation orders) must not move
+                    // the result by more than a tenth of the verdict's tolerance - a step near
+                    // a pole of m / (sqrt(v) + epsilon) does
+                    let mut q = r64.clone();
+                    q.w *= 1.0 + 1e-6;
+                    reference_step(&sub, &mut q, g * (1.0 + 1e-6), step);
                     reference_step(&sub, &mut r32, g, step);
                     reference_step(&sub, &mut r64, g, step);
+                    if conditioned && !((q.w - r64.w).abs() <= 1e-6 * r64.w.abs() + 1e-5 * (1.0 + r64.w.abs())) {
+                        conditioned = false;
+                        ill += 1;
+                    }
+                    if conditioned {
+                        reference_step(&sub, &mut p_w, g, step);
+                        // ... and one ulp up / down after every step (a start-value
+                        // perturbation alone can be rounded away by the first large step)
+                        if p_w.w.is_finite() && p_w.w != 0.0 {
+                            let bits = p_w.w.to_bits();
+                            p_w.w = f32::from_bits(if t % 2 == 0 { bits.wrapping_add(1) } else { bits.wrapping_sub(1) });
+                        }
+                        reference_step(&sub, &mut p_g, g * (1.0 + 2.4e-7), step);
+                    }
                     let lib = traj[t][i];
                     if !(r64.w.is_finite() && r64.w.abs() < MODERATE && r64.a.abs() < MODERATE && r64.c.abs() < MODERATE) {
                         moderate = false;
@@ -688,11 +735,21 @@ impl Property for C03 {
                             signature: sig,
                         });
                     }
-                    if conditioned && !((r32.w as f64 - r64.w).abs() <= 1e-5 * (1.0 + r64.w.abs())) {
+                    if conditioned
+                        && !((r32.w as f64 - r64.w).abs() <= (5e-6 + 1e-7 * (t + 1) as f64) * (1.0 + r64.w.abs())
+                            && ((p_w.w - r32.w) as f64).abs() <= (1e-6 + 5e-8 * (t + 1) as f64) * (1.0 + r64.w.abs())
+                            && ((p_g.w - r32.w) as f64).abs() <= (1e-6 + 5e-8 * (t + 1) as f64) * (1.0 + r64.w.abs()))
+                    {
                         conditioned = false;
                         ill += 1;
                     }
-                    if conditioned && !((lib as f64 - r64.w).abs() <= 1e-4 * (1.0 + r64.w.abs())) {
+                    // the tolerance grows with the number of updates: two valid single-precision
+                    // evaluation orders of the same rule differ by a few ulps per step, and a
+                    // free-running comparison accumulates that linearly (5000 updates: 2.6e-3)
+                    if conditioned && !((lib as f64 - r64.w).abs() <= (1e-4 + 5e-7 * (t + 1) as f64) * (1.0 + r64.w.abs())) {
+                        if std::env::var("VERIF_DEBUG_C03").is_ok() {
+                            eprintln!("DEBUG slot {} elem {} t {}: lib {:e} r32 {:e} r64 {:e} p_w {:e} p_g {:e} g {:e}", k, i, t, lib, r32.w, r64.w, p_w.w, p_g.w, g);
+                        }
                         return Outcome::Violation(Violation {
                             class: "rule_mismatch".into(),
                             detail: format!(
